@@ -462,6 +462,8 @@ func (m *c13Model) showD(t *c13Term, d int) string {
 		return t.obj.Name() + "(after the loop)"
 	case c13OpIdx:
 		return "i"
+	case c13OpTypedNil:
+		return "(" + types.TypeString(t.typ, func(p *types.Package) string { return p.Name() }) + ")(nil) held in an interface"
 	}
 	return t.op + " " + t.name + "(" + list(t.args) + ")"
 }
